@@ -21,7 +21,12 @@ type c20 struct{}
 
 func init() { engine.Register(c20{}) }
 
-func (c20) PostGenerate(r *engine.Rand, sc *engine.Scenario) { chooseEnv(r, sc) }
+func (c20) PostGenerate(r *engine.Rand, sc *engine.Scenario) {
+	chooseEnv(r, sc)
+	if r.Chance(1, 3) {
+		addOtherUnitEvents(r, sc, exclSound)
+	}
+}
 
 func (c20) ID() string { return "C20" }
 
@@ -219,6 +224,9 @@ func c20Run(sc *engine.Scenario, res *engine.Result, altSeed uint64, judge bool)
 		for ei < len(sc.Events) && sc.Events[ei].At <= m.N {
 			ev := sc.Events[ei]
 			ei++
+			if applyOther(m, &ev, res) {
+				continue
+			}
 			v := ev.V
 			if alt != nil && c20Channel(ev.A) == xch {
 				v = alt.Byte()
@@ -434,6 +442,9 @@ func c20Stalled(sc *engine.Scenario, res *engine.Result) ([]c20Sample, string) {
 		for ei < len(sc.Events) && sc.Events[ei].At <= m.N {
 			ev := sc.Events[ei]
 			ei++
+			if applyOther(m, &ev, res) {
+				continue
+			}
 			m.Write(ev.A, ev.V)
 		}
 	}
